@@ -192,6 +192,13 @@ class MeanFieldModel:
                     h = h + np.real(a) * self.x[k]
                 if self.td:
                     h = h + np.cos(self.w * (t - tshift)) * self.y[k]
+                pulse = getattr(self, "pulse", None)
+                if pulse is not None:
+                    # rectangular pulse train (edges inside the time steps:
+                    # not smooth on the scale of dt)
+                    period, duty = pulse
+                    if ((t - tshift) / period) % 1.0 < duty:
+                        h = h + 1.5 * self.x[k]
                 return v @ h @ v.conj().T
             hkw = probe.wrap(f"H{k}", hk) if probe is not None else hk
             systems.append(oqupy.TimeDependentSystemWithField(
